@@ -1,11 +1,12 @@
 SPECIFICATION Spec
-CONSTANT NU = 5
+CONSTANT NU = 4
 CONSTANT ND = 4
 CONSTANT NWU = 4
 CONSTANT NWD = 3
 CONSTANT NS = 3
 CONSTANT WMax = 2
-CONSTANT Modes = {"dir"}
+CONSTANT Modes = {"wund"}
+CONSTANT PFirst = {2}
 INVARIANT GroupLaws
 INVARIANT DegreesEquivariant
 INVARIANT ReachEquivariant
